@@ -1205,6 +1205,58 @@ theorem particles_consistent {m : Mdl} {t : Tree} (h : Reach m t) : ∀ (q : Pat
     exact Follows.step q k st (ih st.s h1) h2 h3 h5
 
 
+/-! ### No simulation continues after a terminal state (MCTS; POMCP once its rollout is guarded) -/
+
+/-- only the last call of the list may have reported a terminal next state -/
+def NoCont : List Step → Prop
+  | [] => True
+  | [_] => True
+  | st :: st' :: l => st.term = false ∧ NoCont (st' :: l)
+
+theorem NoCont.cons {st : Step} {l : List Step} (h : NoCont l) (hs : st.term = false ∨ l = []) : NoCont (st :: l) := by
+  cases l with
+  | nil => trivial
+  | cons st' l =>
+    rcases hs with hs | hs
+    · exact ⟨hs, h⟩
+    · simp at hs
+
+theorem Roll.noCont {m : Mdl} {n s : Nat} {g : Rat} {used : List Step} {x : Rat} (h : Roll m n s g used x) : NoCont used := by
+  induction h with
+  | zero => trivial
+  | term => trivial
+  | step n s g st used x _ _ _ ht _ ih => exact ih.cons (Or.inl ht)
+
+theorem descend_term {m : Mdl} {H : Nat} {t t1 : Tree} {p : Path} {depth : Nat} {st : Step} {mode : Mode}
+    (h : descend m H t p depth st = some (t1, mode)) :
+    (mode = Mode.deeper → st.term = false) ∧
+    (∀ n, mode = Mode.roll n → (m.pomcp = false ∨ m.rollGuard = true) → st.term = false) := by
+  unfold descend at h
+  cases hp : m.pomcp <;> cases hex : t.ex (p ++ [(st.a, m.key st)]) <;> cases hg : m.rollGuard <;>
+    cases ht : st.term <;> cases hd : decide (depth + 1 < H) <;>
+    simp [hp, hex, hg, ht, hd] at h ⊢ <;>
+    (obtain ⟨_, rfl⟩ := h; simp)
+
+/-- **no_simulation_past_terminal.**  In every `simulate` call of MCTS, and of POMCP with the guarded rollout, no
+    call of the generative model follows one that reported a terminal state. -/
+theorem Sim.noCont {m : Mdl} (hg : m.pomcp = false ∨ m.rollGuard = true) {H : Nat} {t t' : Tree} {p : Path} {s depth : Nat}
+    {used : List Step} {r : Rat} (h : Sim m H t p s depth used t' r) : NoCont used := by
+  induction h with
+  | stop => trivial
+  | roll t p s depth st t1 n used fr _ _ _ hd hR =>
+    exact hR.noCont.cons (Or.inl ((descend_term hd).2 n rfl hg))
+  | deeper t p s depth st t1 t2 used fr _ _ _ hd _ ih =>
+    exact ih.cons (Or.inl ((descend_term hd).1 rfl))
+
+/-- the statement for what the translator finds in the source now: MCTS always, POMCP iff the guard is there -/
+theorem no_simulation_past_terminal_as_extracted {m : Mdl} (hm : m.pomcp = true → m.rollGuard = Gen.C19.pomcpRollGuard)
+    (hx : m.pomcp = true → Gen.C19.pomcpRollGuard = true) {H : Nat} {t t' : Tree} {p : Path} {s depth : Nat}
+    {used : List Step} {r : Rat} (h : Sim m H t p s depth used t' r) : NoCont used := by
+  apply Sim.noCont _ h
+  cases hp : m.pomcp with
+  | false => left; rfl
+  | true => right; rw [hm hp]; exact hx hp
+
 /-! ### Witnesses: the hypotheses are satisfiable, and the source's rollout length breaks the horizon -/
 
 /-- a two-action model, every reward 1, discount 1/2, never terminal, rollout length as in the source (`+ 1`) -/
